@@ -29,6 +29,9 @@ def _normal_cases(draw):
                 n=draw(st.integers(1, 3000)), p_pos=draw(st.sampled_from([0.5, 0.0, 1.0, 0.3, 0.97])),
                 seed=draw(st.integers(0, 2**31 - 1)),
                 # a model whose scores sit far from zero relative to their spread
+                int_model=dict(mu_pos=draw(st.integers(-100, 100)), mu_neg=draw(st.integers(-100, 100)),
+                               sp=draw(st.sampled_from([10, 12, 1, 2.5])), sn=draw(st.sampled_from([12, 3, 0.5])),
+                               thr=draw(st.lists(st.integers(-120, 250), min_size=1, max_size=4))),
                 far=dict(mu=draw(st.sampled_from([1e8, -1e8, 3e9, 1e6, -2.5e7])),
                          sigma=draw(st.sampled_from([2e-6, 1e-5, 1e-3, 5e-7]))))
 
@@ -99,6 +102,28 @@ def check_normal(case):
                     "ds:roc-rates", lambda: f"NormalDataset(mu_pos={mu_!r}, sigma_pos={sg_!r}, ...).roc({axis}={rr.tolist()}): "
                                             f"curve {axis} {np.asarray(getattr(c, axis)).tolist()} but the model's {axis} at the "
                                             f"returned thresholds is {np.asarray(getattr(df, axis)(th)).tolist()}")
+    # a model given with whole-number means, asked at whole-number thresholds held in small
+    # integer types (quantised scores): the same rates as for the same numbers as floats
+    im = case.get("int_model")
+    if im:
+        di = NormalDataset(mu_pos=im["mu_pos"], mu_neg=im["mu_neg"], sigma_pos=im["sp"], sigma_neg=im["sn"],
+                           score_class=case["sc"])
+        tf = np.asarray(im["thr"], dtype=float)
+        want_fnr, want_fpr = np.asarray(di.fnr(tf), dtype=float), np.asarray(di.fpr(tf), dtype=float)
+        for i, t in enumerate(im["thr"]):  # against the closed form
+            z = (t - im["mu_pos"]) / im["sp"]
+            require(abs(want_fnr[i] - 0.5 * math.erfc(-z / math.sqrt(2))) <= 1e-12, "ds:rate",
+                    f"NormalDataset(mu_pos={im['mu_pos']}, sigma_pos={im['sp']}).fnr({t}) = {want_fnr[i]!r}")
+        for dtn in ("uint8", "int8", "uint16", "int64", "list", "pyint"):
+            if dtn in ("uint8", "uint16") and min(im["thr"]) < 0 or dtn == "int8" and max(map(abs, im["thr"])) > 127:
+                continue
+            ti = list(im["thr"]) if dtn == "list" else int(im["thr"][0]) if dtn == "pyint" else np.asarray(im["thr"], dtype=dtn)
+            sel = slice(0, 1) if dtn == "pyint" else slice(None)
+            got_fnr, got_fpr = np.atleast_1d(np.asarray(di.fnr(ti), dtype=float)), np.atleast_1d(np.asarray(di.fpr(ti), dtype=float))
+            require(np.allclose(got_fnr, want_fnr[sel], rtol=1e-12, atol=0) and np.allclose(got_fpr, want_fpr[sel], rtol=1e-12, atol=0),
+                    "ds:rate", lambda: f"NormalDataset(mu_pos={im['mu_pos']}, mu_neg={im['mu_neg']}, ...): rates at thresholds "
+                                       f"{im['thr']} held as {dtn}: fnr {got_fnr.tolist()} fpr {got_fpr.tolist()}, as floats: "
+                                       f"fnr {want_fnr[sel].tolist()} fpr {want_fpr[sel].tolist()}")
     for kw in ({}, dict(fnr=rr, fpr=rr)):
         try:
             d.roc(**kw)
@@ -238,4 +263,4 @@ PROP = Prop(
     ],
 )
 
-RULE_EXTRA = ('rates down to 3e-310 (subnormal); roc() of models with |mu| up to 3e9 and sigma down to 5e-7; p within 1e-4..1e-11 of a multiple of 1/n; floor tolerance max(1e-13, 4e-16 q).')
+RULE_EXTRA = ('models with integer means asked at thresholds held as uint8 / int8 / uint16 / int64 / lists / Python ints; rates down to 3e-310 (subnormal); roc() of models with |mu| up to 3e9 and sigma down to 5e-7; p within 1e-4..1e-11 of a multiple of 1/n; floor tolerance max(1e-13, 4e-16 q).')
